@@ -66,12 +66,11 @@ ASSUMPTIONS = [
     '(here-documents, parentheses, braces with one file per line, trailing operator / list continuation, `-stdin` '
     'on the line after a program, `$` takes the line) - not by a general '
     'instruction parser; the generators only emit instructions of that sub-language',
-    'the manual does not say which of several errors of a document is reported: a reader that reads the file once, '
-    'from the top, inclusions expanded in place, reports the first one in reading order, and that one is demanded '
-    '(ACCEPT_LATER_ERRORS = False; the reference reader still collects the later errors - rest of the erroneous '
-    'phase block skipped - and the switch would accept any of them); on the unchanged tree a later error is reported '
-    'only where KF-C07-1 hides the first one, and there it is the first error of the reading with the swallowed '
-    'header, i.e. part of the known finding',
+    'the manual does not say which of several errors of a document is reported ("Fails if a syntax error is found, '
+    'or if a directive fails"): any one of the errors the reference reader finds - the first in reading order, or a '
+    'later one (rest of the erroneous phase block skipped) - is accepted, with its own kind, file, line, source '
+    'and inclusion chain (ACCEPT_LATER_ERRORS = True; the unchanged tree always reports the first one, demanding '
+    'that would be an implementation detail); an error-free reading is never accepted for a document with an error',
     'the source of an instruction with a description on the same line may be reported with or without the '
     'description part of the line; an error in a described instruction may be located at any line from the '
     'description to the first line of the instruction; description texts are compared modulo white space',
@@ -98,7 +97,7 @@ ASSUMPTIONS = [
 ]
 
 KF_SWALLOW = 'KF-C07-1'
-ACCEPT_LATER_ERRORS = False
+ACCEPT_LATER_ERRORS = True
 API_ALARM_S = 30.0  # a parse takes ~1 ms; the alarm only keeps the harness alive (-> inconclusive)
 ROOT = 't.case'
 
